@@ -16,8 +16,9 @@ CFG = {
              "(mode-5 bit-field layout: the block is the sum of its ten fields and every positional read returns the "
              "value written; then decode = 16 x (r,g,b,a) through Bc7.decodeBlock = Bc7Spec.decodeBlock of C03x), "
              "BC4-type UNORM, BC3 alpha under any colour block (all 256 values), the SNORM closest branch (all 255 "
-             "levels, BC4S and BC5S; which inputs take it is decided in f32: of the 8-bit values only 0 and 255), BC2 "
-             "4-bit alpha of a constant-alpha block (17*round(a/17), within 8 of a, 255 stays 255), 5:6:5 corner "
+             "levels, BC4S and BC5S; which inputs take it is decided in f32: of the 8-bit values exactly 0 and 255, "
+             "proved over the binary32 model), BC2 4-bit alpha of a constant-alpha block (17*round(a/17), within 8 of a, "
+             "255 stays 255; the same per pixel for blocks of varying alpha, Proofs/Enc13Tie.bc2_alpha_block), 5:6:5 corner "
              "colours. BC7 opacity, decoder side for EVERY block: modes 0-3 decode alpha 255 at every pixel; in any "
              "mode a pixel is opaque when both fully decoded endpoints of its subset are 255 in the channel the "
              "rotation field routes to alpha; a stored alpha endpoint is 255 iff its raw field is all ones and (modes "
@@ -33,11 +34,12 @@ CFG = {
              "the specification and by the Lean decoder models (driver), and the property's floors evaluated.",
     "note": "Trusted: Lean kernel + propext/Classical.choice/Quot.sound; Enc13.lean (hand-written model of the discrete "
             "encoder logic) and the C03/C03x decoder models (BC7 decoder model: tied exhaustively and proved equal to "
-            "the specification decoder for every block, see C03x); the control-flow transcriptions in "
-            "Proofs/Enc13Opaque.lean (BC7 modes tried, p-bit candidates, constant-alpha guard) and "
-            "Proofs/Enc13Single.lean (SNORM closest block, BC2 alpha bytes) are NOT reached by the differential tie "
-            "(compared once by script with emitted blocks, see notes/C13.md; their decoded effect is judged by the "
-            "oracle on every run); the reading of 'within the endpoint quantisation step' on decoded 8-bit "
+            "the specification decoder for every block, see C03x); the control-flow transcriptions (BC7 modes tried, "
+            "p-bit candidates, rotations, constant-alpha guard; SNORM closest block; BC2 alpha bytes; border replication) "
+            "are part of Enc13.lean and ARE reached by the differential tie on every run (bytes: Enc13.predictBlock; BC7 "
+            "header fields of every emitted block against Enc13.bc7Rule, membership checked by the equal hook below); "
+            "F32.lean (software binary32) for the f32 expressions on these paths, proved equal to the closed forms on "
+            "the whole 8-bit domain; the reading of 'within the endpoint quantisation step' on decoded 8-bit "
             "values (bound = largest gap between adjacent decoded endpoint levels; two-colour blocks: the same "
             "step bound, 'exactly' applies to single-colour BC4/BC5/BC7/BC3-alpha blocks); generators and harness.",
     "profiles": ["release", "checked"],
@@ -49,14 +51,23 @@ CFG = {
             "the portability/opacity clauses); classes: grey (all 256 levels), rand1 (random single RGBA colours), "
             "corner (the 8 exactly representable 5:6:5 colours x alpha 255/0/127/128), two (two palette colours of a "
             "valid witness block), grad, noise, alpha (extreme alpha patterns), edge (partial blocks), dither, prec "
-            "(RGBA16/RGBA32F/RGB8/GRAY8 input), half (f32 alpha exactly 0.5 and neighbours); non-trivial = encoded "
+            "(RGBA16/RGBA32F/RGB8/GRAY8 input), half (f32 alpha exactly 0.5 and neighbours), a16 (BC2 explicit alpha: "
+            "all 256 values, nibble boundaries, partial blocks), sx (SNORM constant channels 0/255/1/254/127/128), "
+            "b7op/b7mix/b7ca/b7sa/b7g (BC7 opaque / mixed alpha / constant RGB / constant alpha / constant-alpha guard "
+            "of modes 4 and 5 for every alpha value, F/N/H/U); non-trivial = encoded "
             "and decoded (result starts with ok); distinct = distinct case lines",
     "explanation": "level other = partial: (1) proof obligations: the theorems of Theorems/C13.lean about the discrete "
                    "encoder logic, Portable and the floors, all inputs; (2) correspondence: for every emitted block the "
                    "Lean driver computes mode digits, Portable and a hash of the 16 pixels decoded by the proved "
-                   "decoder models, and - for single-colour cases - the bytes predicted by the discrete encoder model "
-                   "(BC7 whole block, BC4-type block, 5:6:5 corner colour block, BC1 transparent block); the harness "
-                   "computes the same from dds::decode and Rust code; streams diffed; (3) oracle on freshly emitted "
+                   "decoder models, and - for RGBA8 inputs - the bytes predicted by the discrete encoder model "
+                   "(single colours: BC7 whole block, BC4-type block, 5:6:5 corner colour block, BC1 transparent block; "
+                   "every block: BC2 explicit alpha bytes unless alpha is dithered, BC4-type UNORM block of a constant "
+                   "channel, SNORM closest block of a constant channel 0 / 255) and, for BC7 without dithering, mode / "
+                   "partition / rotation / index-selection / p-bits / alpha endpoint fields read back from every emitted "
+                   "block together with the constraint the discrete rules put on them (modes tried; p-bits (1,1) of "
+                   "opaque subsets in modes 6 / 7; admissible rotations; endpoints of a constant separated channel in "
+                   "modes 4 / 5); the harness computes the same from dds::decode and Rust code (own bit reader) and the "
+                   "equal hook checks that every emitted block meets the model's constraint; (3) oracle on freshly emitted "
                    "blocks: Portable; library decoder = reference decoder; single-colour floor (step bound; exact "
                    "for BC4/BC5/BC7/BC3 alpha); two-colour floor; opaque stays opaque; BC1 alpha threshold at 1/2. "
                    "Not modelled hence only explored: the float endpoint search.",
@@ -73,9 +84,57 @@ CFG = {
     "trusted_base": ["model: lean/DdsModel/DdsModel/Enc13.lean (src/encode/bc1.rs EndPoints::new_p4/new_p3_default/"
                      "with_indexes, get_alpha_map, compress_bc1_block/compress choice, compress_single_color min==max "
                      "path; bc.rs get_bc1_options/get_bc3_options; bc4.rs new_closest/new_inter6 distinctness/"
-                     "inter6_to_inter4; bc7.rs compress_single_color/Compressed::mode5/BitStream); decoders: Bc.lean, "
-                     "BcSpec.lean, Bc7.lean (C03, C03x)"],
+                     "inter6_to_inter4, single_color closest branch (SNORM); bc.rs bc2_alpha, block_universal border "
+                     "replication, BC7_UNORM presets; write_util.rs for_each_f32_rgba_rows row fill; bc7.rs "
+                     "compress_single_color/Compressed::mode5/BitStream, compress_bc7_block mode filter, compress_rgba "
+                     "p-bit candidates, PBitHandling::pick_best, RotationSelect::get_forced_rotation/pick_best, "
+                     "compress_mode4 C3A2 shortcut, compress_color_separate_alpha_with_rotation single-alpha branch, "
+                     "channel_round/floor/ceil); F32.lean; decoders: Bc.lean, BcSpec.lean, Bc7.lean, Bc7Spec.lean "
+                     "(C03, C03x)"],
 }
+
+
+def _b7_meets(obs, rule):
+    """obs = `mode.part.rot.sel.pbits.alpha` of one emitted block, rule = `modes.rots.sel.pbits.alpha` (see
+    Drv/C13.lean ruleString): mode / rotation must be among the listed digits, selector and forced p-bits must be
+    equal, the alpha endpoint fields must be the listed unordered pair; `*` / `x` = unconstrained."""
+    o, r = obs.split("."), rule.split(".")
+    if len(o) != 6 or len(r) != 5:
+        return False
+    mode, _part, rot, sel, pbits, alpha = o
+    rmodes, rrots, rsel, rpbits, ralpha = r
+    if mode not in rmodes:
+        return False
+    if rrots != "*" and rot not in rrots:
+        return False
+    if rsel != "*" and sel != rsel:
+        return False
+    if len(pbits) != len(rpbits) or any(y != "x" and x != y for x, y in zip(pbits, rpbits)):
+        return False
+    if ralpha != "*":
+        try:
+            if sorted(int(x) for x in alpha.split(",")) != sorted(int(x) for x in ralpha.split(",")):
+                return False
+        except ValueError:
+            return False
+    return True
+
+
+def equal(a, b):
+    """a = implementation, b = model.  Everything must be textually equal except the last token of BC7 cases: the
+    implementation prints the header fields of every emitted block (its own bit reader), the model prints
+    `<the same fields read with its reader>@<what its discrete rules allow for the input block>`; the fields must be
+    textually equal and every block must meet its rule (membership, as for the `plan` sets of C16)."""
+    if a == b:
+        return True
+    ta, tb = a.split(" "), b.split(" ")
+    if len(ta) != len(tb) or len(ta) != 7 or ta[:-1] != tb[:-1] or "@" not in tb[-1]:
+        return False
+    obs, rules = tb[-1].split("@", 1)
+    if obs != ta[-1]:
+        return False
+    lo, lr = obs.split(";"), rules.split(";")
+    return len(lo) == len(lr) and all(_b7_meets(x, y) for x, y in zip(lo, lr))
 
 
 def classify(c, r):
